@@ -106,11 +106,11 @@ class P(Property):
     rule = ('cfg: both builders x every combination of the boolean options (client: extended-connect, datagram; server: + webtransport) '
             'x max_field_section_size and max_webtransport_sessions over {0,1,63,64,16383,16384,2^30-1,2^30,2^62-1,2^62,u64::MAX} '
             'x grease on/off, real connection setup over SimQuic with unlimited and 1..7-byte write quanta; the control stream bytes are '
-            'parsed by the reference parser. st.ins: insert sequences (permutations of known ids, duplicates, ids/values around 2^62, '
+            'parsed by the reference parser. cfg2: one builder used for two build() calls with more setter calls in between, both control streams judged. st.ins: insert sequences (permutations of known ids, duplicates, ids/values around 2^62, '
             '0..10 entries, long entries overflowing the 64-byte header). st.dec: SETTINGS payloads from the grammar (known, reserved, '
             'grease, unknown ids; every varint form; permutations; duplicates), every truncation of them, all payloads of 0..2 bytes, '
             'seeded random bytes, each under a random length form, with trailing bytes, handed over as a non-contiguous Buf (0..3 random cuts for every payload; every single cut and every pair of cuts for the hand-written payloads, their truncations and a sample of the generated ones). rx: the same payloads '
-            'delivered on the peer control stream of a real client/server connection (both roles, receiver configuration drawn from the cfg quantifier; whole and in 1/2/5-byte chunks; optionally followed by a second SETTINGS frame; in 60% of the cases the control stream is opened after 1..3 other uni streams that stay silent: incomplete type varint, unknown/grease type, QPACK encoder/decoder, WebTransport type without its session id, no bytes at all). '
+            'delivered on the peer control stream of a real client/server connection (both roles, receiver configuration drawn from the cfg quantifier; whole and in 1/2/5-byte chunks; optionally followed by a second SETTINGS frame; in 60% of the cases the control stream is opened after 1..3 other uni streams that stay silent: incomplete type varint, unknown/grease type, QPACK encoder/decoder, WebTransport type without its session id, no bytes at all), and in half of them the application is active before the SETTINGS are read (shutdown(), a request in flight, a request afterwards); the values in force are read through every public handle (SharedState, Connection, SendRequest, client/server RequestStream) and must agree. '
             'non-trivial = cfg: all; st.ins: at least one insert; st.dec/rx: the payload holds at least one complete entry')
 
     # ---- generators
@@ -231,6 +231,16 @@ class P(Property):
                     if a != b:
                         out.append('cfg %s %s=%d,%s=%d 5 0' % (role, a, nd[a], b, nd[b]))
                         out.append('cfg %s %s=%d,%s=%d,%s=%d 5 0' % (role, a, nd[a], b, nd[b], a, DEFAULTS[a]))
+        # ---- one builder used for two connections, more setter calls between the two build() calls
+        ok_quant = {r: [x for x in self.quantifier(r) if x[1] < V62 and x[5] < V62] for r in 'cs'}
+        for role in 'cs':
+            out.append('cfg2 %s - - 3' % role)
+            out.append('cfg2 %s mfs=1000,grease=0 - 3' % role)
+            out.append('cfg2 %s mfs=1000,grease=0,dg=1,ec=1 mfs=7 3' % role)
+            for _ in range(120 if tier == 'quick' else 4000):
+                c1 = self.calls_for(rng, role, *rng.choice(ok_quant[role]))
+                c2 = rng.choice(['-', '-', self.calls_for(rng, role, *rng.choice(ok_quant[role]))])
+                out.append('cfg2 %s %s %s %d' % (role, c1, c2, rng.choice([0, 1337, GREASE_BOUND - 1])))
         # ---- insert sequences
         out.append('st.ins -')
         for k in range(1, 8):
@@ -316,7 +326,8 @@ class P(Property):
                 pre = ','.join(items)
             form = rng.choice([0] + [l for l in (1, 2, 4, 8) if n < 2 ** (8 * l - 2)])
             calls = self.calls_for(rng, role, *rng.choice(quants[role]))
-            return 'rx %s %s %d %s %s %d %s' % (role, calls, form, p.hex() or '-', tail.hex() or '-', chunk, pre)
+            act = rng.choice(['-', '-', '-', 'sd', 'rq', 'ra', 'rqsd', 'rqra'])
+            return 'rx %s %s %d %s %s %d %s %s' % (role, calls, form, p.hex() or '-', tail.hex() or '-', chunk, pre, act)
         for p in rxs:
             for role in 'cs':
                 out.append(rx_case(role, p, b'', rng.choice([0, 0, 1, 2, 5]) if len(p) < 2000 else rng.choice([0, 1000])))
@@ -330,43 +341,71 @@ class P(Property):
 
     # ---- judging
     @staticmethod
-    def grease_on(case):
+    def grease_on(*callstrs):
         g = DEFAULTS['grease']
-        calls = case.split()[2]
-        if calls != '-':
-            for c in calls.split(','):
-                k, v = c.split('=')
-                if k == 'grease':
-                    g = int(v)
+        for calls in callstrs:
+            if calls != '-':
+                for c in calls.split(','):
+                    k, v = c.split('=')
+                    if k == 'grease':
+                        g = int(v)
         return g == 1
+
+    @staticmethod
+    def canon_stream(hexstr, grease_on):
+        try:
+            b = bytes.fromhex(hexstr)
+        except ValueError:
+            return 'nothex'
+        pairs = parse_control_start(b)
+        if pairs is None:
+            return 'unparsable:' + hexstr
+        gpos = [k for k, (i, _) in enumerate(pairs) if is_grease(i)]
+        rest = [p for k, p in enumerate(pairs) if k not in gpos] if grease_on else pairs
+        return 'len=%d grease@%s %s' % (len(b) if not grease_on else -1, ','.join(map(str, gpos)) if grease_on else '-',
+                                        ','.join('%d:%d' % p for p in rest))
 
     def canon_cfg(self, case, out):
         w = out.split()
+        c = case.split()
         if not w:
             return out
         if w[0] == 'panic':
             return 'panic'
+        if c[0] == 'cfg2':
+            if w[0] != 'ok' or len(w) != 3:
+                return out
+            return 'ok %s | %s' % (self.canon_stream(w[1], self.grease_on(c[2])), self.canon_stream(w[2], self.grease_on(c[2], c[3])))
         if w[0] != 'ok' or len(w) != 2:
             return out
+        return 'ok ' + self.canon_stream(w[1], self.grease_on(c[2]))
+
+    @staticmethod
+    def stream_ok(hexstr, grease, want):
+        """the bytes of a control stream against the spec's `<grease 0/1> id:v,...`"""
         try:
-            b = bytes.fromhex(w[1])
+            b = bytes.fromhex(hexstr)
         except ValueError:
-            return out
+            return False
+        if len(b) > 64:
+            return False
         pairs = parse_control_start(b)
         if pairs is None:
-            return 'ok unparsable ' + w[1]
-        grease_on = self.grease_on(case)
-        gpos = [k for k, (i, _) in enumerate(pairs) if is_grease(i)]
-        rest = [p for k, p in enumerate(pairs) if k not in gpos] if grease_on else pairs
-        return 'ok len=%d grease@%s %s' % (len(b) if not grease_on else -1, ','.join(map(str, gpos)) if grease_on else '-',
-                                           ','.join('%d:%d' % p for p in rest))
+            return False
+        ids = [i for i, _ in pairs]
+        if len(set(ids)) != len(ids) or any(i in RESERVED for i in ids):
+            return False
+        want = sorted(tuple(int(x) for x in p.split(':')) for p in want.split(','))
+        g = [p for p in pairs if is_grease(p[0])]
+        rest = sorted(p for p in pairs if not is_grease(p[0]))
+        return len(g) == (1 if grease == '1' else 0) and rest == want
 
     def canon(self, case, out):
         fam = case.split()[0]
         w = out.split()
         if w and w[0] == 'panic':
             return 'panic'
-        if fam == 'cfg':
+        if fam in ('cfg', 'cfg2'):
             return self.canon_cfg(case, out)
         return out
 
@@ -382,36 +421,19 @@ class P(Property):
         w = out.split()
         if fam == 'rx' and w and w[0] == 'err' and spec.split()[0] == 'err':
             return match_words(out, spec) and self.close_ok(w)
+        sw = spec.split()
+        if fam == 'cfg2':
+            return len(w) == 3 and w[0] == 'ok' and self.stream_ok(w[1], sw[1], sw[2]) and self.stream_ok(w[2], sw[3], sw[4])
         if fam != 'cfg':
             return match_words(self.canon(case, out), spec)
-        sw = spec.split()
         if sw[0] == 'err':
             return w[:2] == sw[:2] and self.close_ok(w)
         # sw = ok <grease> id:v,id:v,...
-        if len(w) != 2 or w[0] != 'ok':
-            return False
-        try:
-            b = bytes.fromhex(w[1])
-        except ValueError:
-            return False
-        if len(b) > 64:
-            return False
-        pairs = parse_control_start(b)
-        if pairs is None:
-            return False
-        ids = [i for i, _ in pairs]
-        if len(set(ids)) != len(ids) or any(i in RESERVED for i in ids):
-            return False
-        want = sorted(tuple(int(x) for x in p.split(':')) for p in sw[2].split(','))
-        grease = [p for p in pairs if is_grease(p[0])]
-        rest = sorted(p for p in pairs if not is_grease(p[0]))
-        if len(grease) != (1 if sw[1] == '1' else 0):
-            return False
-        return rest == want
+        return len(w) == 2 and w[0] == 'ok' and self.stream_ok(w[1], sw[1], sw[2])
 
     def nontrivial_key(self, case, impl_out):
         w = case.split()
-        if w[0] == 'cfg':
+        if w[0] in ('cfg', 'cfg2'):
             return case
         if w[0] == 'st.ins':
             return case if w[1] != '-' else None
